@@ -21,6 +21,7 @@ import ZapVerif.Model.TransLevelX
 import ZapVerif.Model.TransMessageX
 import ZapVerif.Model.TransDeriveX
 import ZapVerif.Model.TransCtorX
+import ZapVerif.Model.TransWritersX
 import ZapVerif.Model.Entry
 import ZapVerif.Gen.TransProbe
 /-! `zvdrv CTR`: the interpreter side of the translator's differential test.  An op names a generated table and a
@@ -295,7 +296,17 @@ def ctorPar : ZapVerif.TransCtor.Par :=
       | none => (([-1, 0, 1, 2, 3, 4, 5] : List Int).find? (levelPar.enabled e)).getD 6,
     nop := .list [.bytes "nop".toUTF8.toList] }
 
+/-- the parameters of the writers context (harness/cmd/zvh/trans_writers.go): ASCII payloads, so the trims are byte-wise;
+    a writer is `[kind, id]`: 0 a plain writer, 1 a WriteSyncer, 2 an already locked syncer -/
+def isAsciiSpace (b : UInt8) : Bool := b == 9 || b == 10 || b == 11 || b == 12 || b == 13 || b == 32
+def writersPar : ZapVerif.TransWriters.Par :=
+  { trimSpace := fun p => ((p.dropWhile isAsciiSpace).reverse.dropWhile isAsciiSpace).reverse,
+    trimRight := fun p cut => (p.reverse.dropWhile fun b => cut.contains b).reverse,
+    asWS := fun w => match w with | .list [.int 0, _] => none | _ => some w,
+    isLocked := fun w => match w with | .list [.int 2, _] => true | _ => false }
+
 def tables : List (String × (Env → Ctx)) := [
+  ("TransWriters", fun _ => ZapVerif.TransWriters.X writersPar),
   ("TransCtor", fun _ => ZapVerif.TransCtor.X ctorPar),
   ("TransMessage", fun e => ZapVerif.TransMessage.X (messagePar e)),
   ("TransLevel", fun _ => ZapVerif.TransLevel.X levelPar),
